@@ -6,8 +6,16 @@ RQ = {'test': 'TestVerifRQ', 'comp': 'rq', 'quick': {'VERIF_N': 150, 'VERIF_OPS'
       'thorough': {'VERIF_N': 1500, 'VERIF_OPS': 300}, 'seeds': {'quick': 1, 'thorough': 8}}
 GENF = {'test': 'TestVerifGenFuncs', 'comp': 'gen', 'quick': {'VERIF_N': 1500},
         'thorough': {'VERIF_N': 200000, 'VERIF_SNA16_ALL': 1}, 'seeds': {'quick': 1, 'thorough': 2}}
+REASM = {'test': 'TestVerifReasm', 'comp': 'reasm', 'quick': {'VERIF_N': 300, 'VERIF_OPS': 300},
+         'thorough': {'VERIF_N': 3000, 'VERIF_OPS': 400}, 'seeds': {'quick': 1, 'thorough': 8}}
 
 PROPS = {
     'C05': {'jobs': [RQ], 'assumptions': []},
     'C16': {'jobs': [GENF, RQ], 'assumptions': []},
+    'C11': {'jobs': [REASM], 'assumptions': [
+        'sum of len(userData) over all chunks ever pushed < 2^63 (uint64 counter / int conversion in subtractNumBytes)']},
+    'C01': {'jobs': [REASM], 'assumptions': [
+        'component level: the association hands each TSN to the stream at most once (C05) and chunks are the sender\'s fragments',
+        'fewer than 2^15 ordered messages of a stream outstanding (SSN half-space); fewer than 2^31 TSNs/MIDs outstanding']},
+    'C06': {'jobs': [REASM], 'assumptions': []},
 }
